@@ -65,7 +65,7 @@ var scratch = func() map[string]*int {
 	for _, g := range []string{"shared", "gx", "svc.bq"} {
 		m[g] = new(int)
 	}
-	for _, p := range []string{"svc.r.", "svc.ms.", "svc.bs.", "svc.s.", "svc.p."} {
+	for _, p := range []string{"svc.r.", "svc.ms.", "svc.bs.", "svc.us.", "svc.s.", "svc.p."} {
 		for i := 0; i < 10; i++ {
 			m[p+strconv.Itoa(i)] = new(int)
 		}
@@ -99,6 +99,7 @@ type world struct {
 	conn    atomic.Pointer[fakeconn.Conn]
 	mst     *mockstore.Store
 	bst     *badgerstore.Store
+	ust     *badgerstore.Store // untyped store: no SetType, values are map[string]interface{}
 	qs      *badgerstore.QueryStore
 	log     *logger.MemLogger
 	cbs     int64
@@ -158,6 +159,8 @@ func newWorld(p Program) (*world, error) {
 	})
 	w.qs.AddIndex(badgerstore.Index{Name: "ia", Key: func(v interface{}) []byte { return []byte(v.(rec).A) }})
 	s.Handle("bs.$id", res.Model, store.Handler{Store: w.bst, Transformer: store.IDTransformer("id", nil)})
+	w.ust = badgerstore.NewStore(db).SetPrefix("u")
+	s.Handle("us.$id", res.Model, store.Handler{Store: w.ust, Transformer: store.IDTransformer("id", nil)})
 	s.Handle("bq", res.Collection, store.QueryHandler{QueryStore: w.qs,
 		QueryRequestHandler: func(rname string, pp map[string]string, q url.Values) (url.Values, string, error) {
 			return url.Values{"p": {q.Get("p")}}, "p=" + q.Get("p"), nil
@@ -302,6 +305,25 @@ func (w *world) exec(op Op, family map[string]bool, mu *sync.Mutex) {
 			_ = tx.Delete()
 		}
 		_ = tx.Close()
+	case "ustore":
+		note("store")
+		id := strconv.Itoa(op.N % 4)
+		tx := w.ust.Write(id)
+		switch op.N % 3 {
+		case 0:
+			_ = tx.Create(map[string]interface{}{"n": op.N})
+		case 1:
+			_ = tx.Update(map[string]interface{}{"n": op.N, "a": "x"})
+		default:
+			_ = tx.Delete()
+		}
+		_ = tx.Close()
+	case "uread":
+		note("store")
+		tx := w.ust.Read(strconv.Itoa(op.N % 4))
+		_, _ = tx.Value()
+		_ = tx.Close()
+		_, _ = w.ust.Get(strconv.Itoa(op.N % 4))
 	case "bread":
 		note("store")
 		tx := w.bst.Read(strconv.Itoa(op.N % 4))
@@ -454,7 +476,7 @@ func runProgram(p Program) (reports []report, cbs int64, families int, err error
 	return newRaceReports(), atomic.LoadInt64(&w.cbs), len(fam), nil
 }
 
-var rids = []string{"svc.r.1", "svc.r.2", "svc.r.3", "svc.s.1", "svc.s.2", "svc.p.1", "svc.ms.1", "svc.bs.1", "svc.bq"}
+var rids = []string{"svc.r.1", "svc.r.2", "svc.r.3", "svc.s.1", "svc.s.2", "svc.p.1", "svc.ms.1", "svc.bs.1", "svc.us.1", "svc.bq"}
 
 func genProgram() *rapid.Generator[Program] {
 	return rapid.Custom(func(t *rapid.T) Program {
@@ -462,7 +484,7 @@ func genProgram() *rapid.Generator[Program] {
 		p.Yield = rapid.SampledFrom([]int{0, 50, 200, 500}).Draw(t, "yield")
 		p.Sleep = rapid.SampledFrom([]int{0, 10, 100}).Draw(t, "sleep")
 		nt := rapid.IntRange(2, 16).Draw(t, "threads")
-		kinds := []string{"get", "get", "call", "call", "access", "callquery", "qreq", "with", "with", "withgroup", "withres", "reset", "resetall", "token", "tokenreset", "mstore", "mstore", "bstore", "bstore", "bread", "bquery", "bflush", "logread", "sleep"}
+		kinds := []string{"get", "get", "call", "call", "access", "callquery", "qreq", "with", "with", "withgroup", "withres", "reset", "resetall", "token", "tokenreset", "mstore", "mstore", "bstore", "bstore", "bread", "ustore", "ustore", "uread", "bquery", "bflush", "logread", "sleep"}
 		restartThread := -1
 		if rapid.IntRange(0, 2).Draw(t, "withrestart") == 0 {
 			restartThread = rapid.IntRange(0, nt-1).Draw(t, "rthread")
